@@ -5,6 +5,9 @@
 package harness
 
 import (
+	"sync"
+	"github.com/google/badwolf/triple/node"
+	"github.com/pborman/uuid"
 	"github.com/google/badwolf/xverif/sim"
 	"bufio"
 	"sync/atomic"
@@ -327,6 +330,81 @@ done:
 		sum.Samples = append(sum.Samples, c)
 	}
 	jr.line("S", sum)
+}
+
+// ---------------------------------------------------------------------------
+// Blank node identifiers. node.NewBlankNode takes them from a goroutine that fills a 256 element channel with
+// uuid.NewRandom() values; their textual order decides iteration and emission orders downstream, so a run that
+// creates blank nodes and reads them back is only replayable when that source is owned. The uuid package lets its
+// random source be replaced: blankRand yields bytes that are a pure function of (epoch, counter).
+
+type detRandT struct {
+	mu         sync.Mutex
+	epoch, ctr uint64
+}
+
+func (d *detRandT) block(epoch, ctr uint64) [16]byte {
+	var b [16]byte
+	r := NewRand(epoch, ctr, 0xB1A4)
+	x, y := r.U64(), r.U64()
+	for i := 0; i < 8; i++ {
+		b[i], b[8+i] = byte(x>>(8*uint(i))), byte(y>>(8*uint(i)))
+	}
+	return b
+}
+
+func (d *detRandT) Read(p []byte) (int, error) {
+	d.mu.Lock()
+	defer d.mu.Unlock()
+	for off := 0; off < len(p); off += 16 {
+		b := d.block(d.epoch, d.ctr)
+		d.ctr++
+		copy(p[off:], b[:])
+	}
+	return len(p), nil
+}
+
+// marker is the textual id of the blank node made from block (epoch, 0).
+func (d *detRandT) marker(epoch uint64) string {
+	b := d.block(epoch, 0)
+	b[6] = (b[6] & 0x0f) | 0x40
+	b[8] = (b[8] & 0x3f) | 0x80
+	return uuid.UUID(b[:]).String()
+}
+
+var (
+	blankRand  = &detRandT{}
+	blankOnce  sync.Once
+	blankFlush uint64
+)
+
+// ownBlankNodes makes the blank node ids created from now on a function of key alone: the source is switched to
+// a throw-away epoch and drained until that epoch's first id shows up (everything generated earlier is gone then),
+// then to the epoch derived from key and drained up to its first id.
+func ownBlankNodes(key string) {
+	blankOnce.Do(func() {
+		time.Sleep(3 * time.Millisecond) // the generator goroutine has filled its channel and is parked in a send
+		uuid.SetRand(blankRand)
+	})
+	var kh uint64 = 1469598103934665603
+	for i := 0; i < len(key); i++ {
+		kh = (kh ^ uint64(key[i])) * 1099511628211
+	}
+	blankFlush++
+	for _, ep := range []uint64{blankFlush | 1<<63, kh &^ (1 << 63)} {
+		blankRand.mu.Lock()
+		blankRand.epoch, blankRand.ctr = ep, 0
+		blankRand.mu.Unlock()
+		want := blankRand.marker(ep)
+		for n := 0; ; n++ {
+			if node.NewBlankNode().ID().String() == want {
+				break
+			}
+			if n > 100000 {
+				panic("ownBlankNodes: the blank node source does not follow the installed reader")
+			}
+		}
+	}
 }
 
 // startWatchdog watches the case in progress from outside every bubble (real clock). A case that runs longer than
